@@ -5,7 +5,7 @@
    by every API call (also when the call raises), and under which no API call raises one of those errors.
    ValueError is deliberately not in the list: it is raised for an unroutable PDU (C20), for a max_packet_len that cannot
    hold a PDU (C19), when the environment truncates the source file under a running transaction, and by the lost-segment
-   tracker for overlapping retransmissions (known finding F9).
+   tracker for overlapping retransmissions (finding F9, repaired since).
    One sanity condition on the inbound PDU of the sender, as in props/C12b.v: the segment requests of a NAK do not start
    below zero (unsigned on the wire).  Without it the statement is false for the model: a request (-5, 0) passes the range
    checks against the progress 0 of a metadata-only transaction and reaches `assert source_file is not None`
